@@ -41,6 +41,9 @@ def inject(rng, v, src, sport, dst, dport, n, frag=False, **kw):
         cs, order = cuts_for(rng, n)
         if cs:
             op['cuts'], op['order'] = cs, order
+    if rng.random() < 0.3:
+        # the frame is longer than the IP packet (link-layer padding, e.g. up to the 46-byte Ethernet minimum): not part of the datagram
+        op['pad'] = rng.choice([1, 2, 6, 18, 46 - min(n, 17) - 28 if n < 18 else 4, 300])
     op.update(kw)
     return op
 
